@@ -52,6 +52,9 @@ inductive PFail where
 inductive QueryAns where
   | valid (patterns : Nat) (captures : List (String × Quant))
   | invalid (row col off : Nat)
+  /-- the call did not return: tree-sitter 0.24.7's Rust binding panics while building the error for a query whose
+      error is at offset 0 (`source.as_bytes()[offset - 1]`), e.g. a stanza query that begins with an unknown field -/
+  | bindingPanic
   deriving Repr, DecidableEq, Inhabited
 
 structure POracle where
@@ -726,6 +729,7 @@ def parseStanza (o : POracle) (fuel : Nat) : PP Stanza := do
   let qsrc := String.ofList qtext ++ "@" ++ fullMatchName
   match o.query qsrc with
   | none => .fail (.need (.query qsrc))
+  | some .bindingPanic => .fail (.panic "tree_sitter::Query::new")
   | some (.invalid r c off) =>
     failE (.queryError (r + s0.row) (if r = 0 then c + s0.col else c) (off + s0.off))
   | some (.valid patterns caps) =>
